@@ -4,7 +4,7 @@
    BaseART machinery (C01 ff.).  The row veto of the code
    (BARTMAP._average_pearson_corr) fails on non-square matrices: known finding. *)
 From Coq Require Import List Bool Arith.
-From ART Require Import Bartmap.
+From ART Require Import Num Vec Search Kernel BaseArt Bartmap Bartmap_fit.
 Import ListNotations.
 
 Theorem C17_shapes :
@@ -30,7 +30,40 @@ Theorem C17_membership_agrees_with_labels :
     in_bicluster (bm_rows ra nA nB) (bm_cols cb nA nB) k i j
     = Nat.eqb (k / nB) (nth i ra 0) && Nat.eqb (k mod nB) (nth j cb 0).
 Proof. exact bm_membership. Qed.
+(* BARTMAP.fit as a whole (one epoch): the labels are what the two fits produce - no hypothesis on them; for every
+   kernel pair, every row veto, every data set on which the call is defined *)
+Theorem C17_fit_checkerboard :
+  forall (N : Num) (Ka Kb : Kernel N) (vk : nat -> bool) (eps0 : N) sa sb Xa Xb r,
+    bm_fit Ka Kb vk eps0 sa sb Xa Xb = Some r ->
+    let nA := length (W (bm_a r)) in
+    let nB := length (W (bm_b r)) in
+    length (bm_rows_ r) = nA * nB /\ length (bm_cols_ r) = nA * nB /\
+    Forall (fun row => length row = length Xa) (bm_rows_ r) /\
+    Forall (fun col => length col = length Xb) (bm_cols_ r) /\
+    length (labels (bm_a r)) = length Xa /\ length (labels (bm_b r)) = length Xb /\
+    forall i j, i < length Xa -> j < length Xb ->
+      let k0 := nth i (labels (bm_a r)) 0 * nB + nth j (labels (bm_b r)) 0 in
+      k0 < nA * nB /\
+      forall k, k < nA * nB -> (in_bicluster (bm_rows_ r) (bm_cols_ r) k i j = true <-> k = k0).
+Proof. exact @bm_fit_checkerboard. Qed.
+Theorem C17_fit_membership_agrees_with_labels :
+  forall (N : Num) (Ka Kb : Kernel N) (vk : nat -> bool) (eps0 : N) sa sb Xa Xb r k i j,
+    bm_fit Ka Kb vk eps0 sa sb Xa Xb = Some r ->
+    i < length Xa -> j < length Xb -> k < length (W (bm_a r)) * length (W (bm_b r)) ->
+    in_bicluster (bm_rows_ r) (bm_cols_ r) k i j
+    = Nat.eqb (k / length (W (bm_b r))) (nth i (labels (bm_a r)) 0) && Nat.eqb (k mod length (W (bm_b r))) (nth j (labels (bm_b r)) 0).
+Proof. exact @bm_fit_membership. Qed.
+Theorem C17_column_clustering_is_the_column_module_alone :
+  forall (N : Num) (Ka Kb : Kernel N) (vk : nat -> bool) (eps0 : N) sa sb Xa Xb r,
+    bm_fit Ka Kb vk eps0 sa sb Xa Xb = Some r ->
+    exists ls, fit Kb sb Xb (fun _ => None) MTplus eps0 = Some (bm_b r, ls).
+Proof. exact @bm_fit_columns_alone. Qed.
+Theorem C17_both_data_sets_validated_first :
+  forall (N : Num) (Ka Kb : Kernel N) (vk : nat -> bool) (eps0 : N) sa sb Xa Xb r,
+    bm_fit Ka Kb vk eps0 sa sb Xa Xb = Some r -> valid Ka sa Xa = true /\ valid Kb sb Xb = true.
+Proof. exact @bm_fit_validates_first. Qed.
 Print Assumptions C17_every_cell_in_exactly_one_bicluster.
+Print Assumptions C17_fit_checkerboard.
 
 Example C17_example :
   bm_rows [0; 1; 0] 2 2 = [[true; false; true]; [true; false; true]; [false; true; false]; [false; true; false]] /\
